@@ -27,7 +27,10 @@
 
   Not modelled: a body re-entering its own generator ("already executing"), real suspension of an
   async generator inside an `await` (operations on async generators are awaited to completion in one
-  step, as the harness drives them), garbage-collection finalisers, tracebacks / __context__.
+  step, as the harness drives them), tracebacks / __context__, and finalisation of an ABANDONED object:
+  a wrapper that terminates while its inner object is still suspended (only possible when the inner body
+  yields while handling GeneratorExit — outside the property's hypothesis) drops it, and CPython then throws
+  GeneratorExit into it once more, at a moment decided by reference counts / the cyclic collector.
 -/
 namespace BearVerif.Gen
 
@@ -312,13 +315,17 @@ def wrap525 (objOk : Bool) (b : Body σ) : Body (W (AState σ)) where
 
 /-! ## Specification side -/
 
-/-- the undecorated body whose `return v` goes through the return check -/
+/-- the undecorated body whose returned (awaited) value goes through the return check. A value returned
+    while handling GeneratorExit is not a result anybody receives (`close()` discards it), so it is not checked. -/
 def checkRet (chk : Val → Bool) (b : Body σ) : Body σ where
   start := b.start
   resume s i :=
-    match b.resume s i with
-    | (l, .ret v) => if chk v then (l, .ret v) else (l, .rse .violation)
-    | r => r
+    match i with
+    | .throw .genExit => b.resume s i
+    | _ =>
+      match b.resume s i with
+      | (l, .ret v) => if chk v then (l, .ret v) else (l, .rse .violation)
+      | r => r
 
 /-- a body that raises the return violation as soon as it is started -/
 def violBody : Body Unit where
@@ -515,5 +522,40 @@ def wrapperKind (tbl : List (String × Feat)) (d : Decision) (checked : Bool) : 
     coroutine functions: awaiting a generator object is an error, not awaiting a coroutine leaves it unrun -/
 def callShape (tbl : List (String × Feat)) (d : Decision) (checked : Bool) : Option (Bool × Bool) :=
   (wrapperFeat tbl d checked).map (fun ft => (ft.callsFunc, ft.awaitsFunc))
+
+/-! ## The snippets this file models, as CPython's `ast.dump` prints them (comments do not appear).
+   `Props/C08.lean` proves the dumps re-extracted from /repo on every run equal these, so the hand models
+   below were written from the code that is checked:
+     CODE_PEP342_RETURN_*              `Return(YieldFrom(inner))`                       -> `wrapDeleg` (k = gen)
+     CODE_CALL_CHECKED[await ] + CODE_NORMAL_RETURN_CHECKED / CODE_NORMAL_RETURN_UNCHECKED_ASYNC
+                                       `pith = await func(..)`; `return pith`           -> `wrapDeleg` (k = coro)
+     CODE_PEP525_RETURN_*   Try[ prime: `yield_pith = await anext(inner)` | except StopAsyncIteration: return ]   -> `.init, .send`
+                            else While True: Try[ `send_pith = yield yield_pith` ]
+                              except GeneratorExit: `await inner.aclose()`; `raise`                              -> `afterAclose`
+                              except BaseException as e: `yield_pith = await inner.athrow(e)` | StopAsyncIteration: return  -> `.athrow`
+                              else: if send_pith is None: `await anext(inner)` else `await inner.asend(send_pith)`
+                                    | StopAsyncIteration: return                                                  -> `.deleg, .send`
+-/
+def modelledSnippets : List (String × String) := [
+  ("CODE_CALL_CHECKED[]",
+   "Assign([Name('__beartype_pith_0', Store())], Call(Name('__beartype_func', Load()), [Starred(Name('args', Load()), Load())], [keyword(value=Name('kwargs', Load()))])); If(Constant(True), [Pass()], [])"),
+  ("CODE_CALL_CHECKED[await ]",
+   "Assign([Name('__beartype_pith_0', Store())], Await(Call(Name('__beartype_func', Load()), [Starred(Name('args', Load()), Load())], [keyword(value=Name('kwargs', Load()))]))); If(Constant(True), [Pass()], [])"),
+  ("CODE_NORMAL_RETURN_CHECKED",
+   "Return(Name('__beartype_pith_0', Load()))"),
+  ("CODE_NORMAL_RETURN_UNCHECKED_ASYNC",
+   "Return(Await(Call(Name('__beartype_func', Load()), [Starred(Name('args', Load()), Load())], [keyword(value=Name('kwargs', Load()))])))"),
+  ("CODE_NORMAL_RETURN_UNCHECKED_SYNC",
+   "Return(Call(Name('__beartype_func', Load()), [Starred(Name('args', Load()), Load())], [keyword(value=Name('kwargs', Load()))]))"),
+  ("CODE_PEP342_RETURN_CHECKED",
+   "Return(YieldFrom(Name('__beartype_pith_0', Load())))"),
+  ("CODE_PEP342_RETURN_UNCHECKED",
+   "Return(YieldFrom(Call(Name('__beartype_func', Load()), [Starred(Name('args', Load()), Load())], [keyword(value=Name('kwargs', Load()))])))"),
+  ("CODE_PEP525_RETURN_CHECKED",
+   "Try([Assign([Name('__beartype_agen_yield_pith', Store())], Await(Call(Name('anext', Load()), [Name('__beartype_pith_0', Load())], [])))], [ExceptHandler(Name('StopAsyncIteration', Load()), body=[Return()])], [While(Constant(True), [Try([Assign([Name('__beartype_agen_send_pith', Store())], Yield(Name('__beartype_agen_yield_pith', Load())))], [ExceptHandler(Name('GeneratorExit', Load()), 'exception', [Expr(Await(Call(Attribute(Name('__beartype_pith_0', Load()), 'aclose', Load()), [], []))), Raise()]), ExceptHandler(Name('BaseException', Load()), '__beartype_agen_exception', [Try([Assign([Name('__beartype_agen_yield_pith', Store())], Await(Call(Attribute(Name('__beartype_pith_0', Load()), 'athrow', Load()), [Name('__beartype_agen_exception', Load())], [])))], [ExceptHandler(Name('StopAsyncIteration', Load()), body=[Return()])], [], [])])], [Try([If(Compare(Name('__beartype_agen_send_pith', Load()), [Is()], [Constant(None)]), [Assign([Name('__beartype_agen_yield_pith', Store())], Await(Call(Name('anext', Load()), [Name('__beartype_pith_0', Load())], [])))], [Assign([Name('__beartype_agen_yield_pith', Store())], Await(Call(Attribute(Name('__beartype_pith_0', Load()), 'asend', Load()), [Name('__beartype_agen_send_pith', Load())], [])))])], [ExceptHandler(Name('StopAsyncIteration', Load()), body=[Return()])], [], [])], [])], [])], [])"),
+  ("CODE_PEP525_RETURN_UNCHECKED",
+   "Assign([Name('__beartype_pith_0', Store())], Call(Name('__beartype_func', Load()), [Starred(Name('args', Load()), Load())], [keyword(value=Name('kwargs', Load()))])); Try([Assign([Name('__beartype_agen_yield_pith', Store())], Await(Call(Name('anext', Load()), [Name('__beartype_pith_0', Load())], [])))], [ExceptHandler(Name('StopAsyncIteration', Load()), body=[Return()])], [While(Constant(True), [Try([Assign([Name('__beartype_agen_send_pith', Store())], Yield(Name('__beartype_agen_yield_pith', Load())))], [ExceptHandler(Name('GeneratorExit', Load()), 'exception', [Expr(Await(Call(Attribute(Name('__beartype_pith_0', Load()), 'aclose', Load()), [], []))), Raise()]), ExceptHandler(Name('BaseException', Load()), '__beartype_agen_exception', [Try([Assign([Name('__beartype_agen_yield_pith', Store())], Await(Call(Attribute(Name('__beartype_pith_0', Load()), 'athrow', Load()), [Name('__beartype_agen_exception', Load())], [])))], [ExceptHandler(Name('StopAsyncIteration', Load()), body=[Return()])], [], [])])], [Try([If(Compare(Name('__beartype_agen_send_pith', Load()), [Is()], [Constant(None)]), [Assign([Name('__beartype_agen_yield_pith', Store())], Await(Call(Name('anext', Load()), [Name('__beartype_pith_0', Load())], [])))], [Assign([Name('__beartype_agen_yield_pith', Store())], Await(Call(Attribute(Name('__beartype_pith_0', Load()), 'asend', Load()), [Name('__beartype_agen_send_pith', Load())], [])))])], [ExceptHandler(Name('StopAsyncIteration', Load()), body=[Return()])], [], [])], [])], [])], [])")
+]
+
 
 end BearVerif.Gen
